@@ -238,7 +238,13 @@ bool File::copy(const String& src, const String& destination, bool failIfExists)
       return false;
     if(lseek(fd, 0, SEEK_SET) < 0)
       return false;
-    int dest = ::open(destination, failIfExists ? (O_CREAT | O_EXCL | O_CLOEXEC | O_TRUNC | O_WRONLY) : (O_CREAT | O_CLOEXEC | O_TRUNC | O_WRONLY), S_IRUSR | S_IWUSR | S_IRGRP | S_IROTH);
+    bool created = true;
+    int dest = ::open(destination, O_CREAT | O_EXCL | O_CLOEXEC | O_TRUNC | O_WRONLY, S_IRUSR | S_IWUSR | S_IRGRP | S_IROTH);
+    if(dest == -1 && errno == EEXIST && !failIfExists)
+    {
+      created = false;
+      dest = ::open(destination, O_CREAT | O_CLOEXEC | O_TRUNC | O_WRONLY, S_IRUSR | S_IWUSR | S_IRGRP | S_IROTH);
+    }
     if(dest == -1)
     {
       ::close(fd);
@@ -246,8 +252,12 @@ bool File::copy(const String& src, const String& destination, bool failIfExists)
     }
     if(sendfile(dest, fd, 0, size) != size)
     {
+      int err = errno;
       ::close(fd);
       ::close(dest);
+      if(created)
+        ::unlink(destination); // do not leave a new empty or partial file behind
+      errno = err;
       return false;
     }
     ::close(fd);
